@@ -1,7 +1,8 @@
 """Stream `roundtrip` (C12): load a document with the real loader, print the UNEDITED tree with the file type's
 default formatter, load the printed text again with the same loader, compare the two trees.
 
-Case      {"fmt": json|json5|csv|yaml|plist|xml, "doc": <tagged document>, "src": {...source-dump options}}
+Case      {"fmt": json|json5|csv|yaml|plist|xml, "doc": <tagged document>, "src": {...source-dump options},
+           optional "pre": {"fmt", "doc", "src"} = a document of another format that the SAME Printer object prints first}
           documents are tagged (see `enc`): strings are code-point lists so that lone surrogates, NUL, astral
           characters ... survive every JSON hop; floats are carried as their `repr` text.
           csv : {"k":"csv","rows":[[cell code points,...],...]}       xml : {"k":"xml","tag","attrib","text","children"}
@@ -12,6 +13,12 @@ Comparison of data (`obj1` vs `obj2`): floats by `repr` (so -0.0 and 0.0 are DIF
 bool/int distinct, strings by code points, mappings in tree order (DictNode sorts at load; both sides are loaded).
 `tree1 == tree2` is additionally required, except for documents that contain NaN (NaN != NaN in Python; stated in
 NOTES) .  XML text is compared modulo surrounding whitespace (as XMLElement.__eq__ does).
+
+YAML / plist / XML have no model: the stream is the evidence.  Their numbers come from the same pools as JSON's (extreme, subnormal,
+exponent-form, negative zero, +-inf, 64-bit boundaries and beyond - plist sources with integers outside [-2**63, 2**64) are written
+by hand because plistlib's writer refuses them, its reader does not), YAML strings include every kind of plain scalar a YAML 1.1
+resolver reads as something else (`YAML_LOOKALIKES`); other strings stay alphanumeric (the plist formatter does not escape, the YAML
+formatter has the two findings in `YAML_FINDINGS`).
 
 Model tie (json, json5, csv): the Lean model prints the same document (`GtModel.RoundTrip.printJson/printCsv`);
 its text must equal the real printed text EXACTLY (including the Printer's newline/indent layout), and the model's
@@ -255,16 +262,46 @@ def alnum_str(r, empty_ok=False):
     return "".join(r.choice(ALNUM) for _ in range(r.choice([1, 1, 2, 3, 5, 8, 20])))
 
 
+# strings that a YAML 1.1 resolver reads as something else unless they are quoted (ints in other bases and with underscores, floats,
+# sexagesimals, booleans, nulls, timestamps, merge / value keys), and strings made of indicator characters
+YAML_LOOKALIKES = ["0x1F", "0xff", "0XFF", "0b101", "0o17", "017", "1_000", "0x_1", "yes", "Yes", "on", "OFF", "y", "N", "~", "null", "Null", "NULL", "true",
+                   "False", "1e3", "1e+3", "1.0e3", "6.02E23", ".5", "+.5", "5.", "0.", "-0", "+1", "-1", "1.5", ".inf", "-.inf", ".Inf", ".nan", ".NaN",
+                   "1:30", "190:20:30", "1:30.5", "2001-12-14", "2001-12-14T21:59:43Z", "2001-12-14 21:59:43", "2001-12-14t21:59:43.10-05:00",
+                   "<<", "=", "-", "--", "---", "...", "?", "- a", "a: b", "a:", ":a", "a:b", "a #b", "@x", "%y", "!t", "&a", "*a", "[a", "{a", "]", "}", ",",
+                   "'q", '"q', "it's", "|", ">", " lead", "trail ", "a  b", "`x", "a,b", "a\tb", "\u00e9"]
+
+
+# shrunk inputs of genuine YAML findings outside the alphanumeric domain (kept visible; the monitor gives them keys of their own)
+YAML_FINDINGS = [{"a": "#c"}, ["#c"], {"a b c " * 20: 1}]
+
+
+def plain_number(r, fmt):
+    """numbers for the formats without a model (YAML, plist): the JSON pools - extreme, exponent-form, subnormal, negative zero, 64-bit
+    boundaries and beyond, random bit patterns - plus small ones"""
+    k = r.random()
+    if k < 0.35:
+        return r.randint(-1000, 1000)
+    if k < 0.6:
+        return rand_int(r)
+    if k < 0.65:
+        return r.choice([2 ** 63 - 1, -(2 ** 63), 2 ** 63, 2 ** 64 - 1, 2 ** 64, -(2 ** 63) - 1, 2 ** 31 - 1, 2 ** 32, 2 ** 53])
+    if k < 0.9:
+        return r.choice(FLOATS)
+    if k < 0.97:
+        return rand_float(r)
+    return r.choice(SPECIAL_FLOATS[:2])        # +-inf (both formats can write them); NaN only in forced cases (NaN != NaN)
+
+
 def plain_scalar(r, fmt):
     k = r.random()
-    if k < 0.5:
+    if k < 0.45:
         return alnum_str(r)
-    if k < 0.8:
-        return r.randint(-1000, 1000)
-    if k < 0.88:
+    if k < 0.5 and fmt == "yaml":
+        return r.choice(YAML_LOOKALIKES)
+    if k < 0.84:
+        return plain_number(r, fmt)
+    if k < 0.9:
         return r.choice([True, False])
-    if k < 0.94:
-        return r.choice([0.5, 1.5, -2.25, 100.0, 1e3, 0.1])
     return alnum_str(r) if fmt == "plist" else None
 
 
@@ -459,12 +496,49 @@ def gen(rng, tier):
                    {"a": {"b": {}}}, [[1], []]]
         for x in forced:
             add(fmt, enc(x))
+        # numbers: every entry of the JSON pools alone, in a list and as a mapping value; 64-bit boundaries and beyond
+        nums = FLOATS + SPECIAL_FLOATS + INTS + [2 ** 63 - 1, -(2 ** 63), 2 ** 64 - 1, -(2 ** 63) - 1, 0.1 + 0.2, 1e23, 1.5e-9, 123456.789e3, -1e-7, 1e-10, 12345678.9]
+        for x in nums:
+            add(fmt, enc(x))
+        add(fmt, enc(nums))
+        add(fmt, enc({"n%d" % i: x for i, x in enumerate(nums)}))
+        add(fmt, enc({"a": [1e-07, 0.1, 123456789.12345679, 1e+22], "b": {"c": [5e-324, -0.0, 1.7976931348623157e308]}}))
+        if fmt == "yaml":
+            # look-alike strings as value, list item, key, and at the top
+            for x in YAML_LOOKALIKES:
+                add(fmt, enc(x))
+                add(fmt, enc({"k": x, "l": [x, "plain"], x: "v"}))
+            add(fmt, enc(YAML_LOOKALIKES))
+            add(fmt, enc({x: x for x in YAML_LOOKALIKES}))
+            for x in YAML_FINDINGS:
+                add(fmt, enc(x))
         for depth in (30, 10):
             for kinds in ("l", "d", "ld"):
                 add(fmt, enc(deep(rng, depth, rng.choice(["x", 1, "abc"]), kinds)))
         n = 400 if not thorough else 8000
         for i in range(n):
             add(fmt, enc(plain_doc(rng, fmt)))
+    # ---- one Printer object used for two documents in a row (e.g. printer.DEFAULT_PRINTER, or a printer a library user keeps): the
+    # second text must still load to the second document.  First a nested document of ANOTHER format (different indentation width,
+    # different quoting state), then the document under test.
+    nested = {"a": {"b": {"c": [1, 2, {"d": "e"}]}}, "f": [["g"]], "h": [{"i": 1, "j": [2, {"k": 3}]}]}
+    seq_docs = [{"people": [{"name": "alice", "age": 30, "tags": ["x1", {"role": "admin", "level": 3}]}, {"name": "bob", "age": 41}]},
+                [{"a": 1, "b": 2}, {"c": [1, 2]}], {"a": {"b": {"c": [1, 2, {"d": "e", "f": "g"}]}}}, [[1, 2], [3, [4, {"x": 1, "y": 2}]]], "top"]
+    xml_nested = fx_nested = {"k": "xml", "tag": "a", "attrib": [["k", "v"]], "text": "t", "children": [
+        {"k": "xml", "tag": "b", "attrib": [], "text": None, "children": [{"k": "xml", "tag": "c", "attrib": [], "text": "x", "children": []}]}]}
+    for fmt in ("yaml", "plist", "json", "json5", "xml"):
+        for pre_fmt in ("json", "yaml", "plist", "xml"):
+            if pre_fmt == fmt:
+                continue
+            pre = {"fmt": pre_fmt, "doc": xml_nested if pre_fmt == "xml" else enc(nested), "src": {}}
+            docs = [xml_nested] if fmt == "xml" else [enc(d) for d in seq_docs]
+            for d in docs:
+                cases.append({"fmt": fmt, "doc": d, "src": {}, "pre": pre})
+    for i in range(60 if not thorough else 1500):
+        fmt = rng.choice(["yaml", "yaml", "plist", "json"])
+        pre_fmt = rng.choice([f for f in ("json", "yaml", "plist") if f != fmt])
+        cases.append({"fmt": fmt, "doc": enc(plain_doc(rng, fmt)), "src": {},
+                      "pre": {"fmt": pre_fmt, "doc": enc(plain_doc(rng, pre_fmt, maxd=5)), "src": {}}})
     # ---- XML
     fx = [{"k": "xml", "tag": "a", "attrib": [], "text": None, "children": []},
           {"k": "xml", "tag": "a", "attrib": [], "text": "t", "children": []},
@@ -524,7 +598,11 @@ def source_bytes(case):
         return yaml.dump(dec(doc), Dumper=yaml.SafeDumper).encode("utf-8")
     if fmt == "plist":
         import plistlib
-        return plistlib.dumps(dec(doc), sort_keys=False)
+        try:
+            return plistlib.dumps(dec(doc), sort_keys=False)
+        except OverflowError:
+            # plistlib's WRITER refuses integers outside [-2**63, 2**64); its reader accepts any <integer>: write the XML by hand
+            return plist_xml(dec(doc)).encode("utf-8")
     if fmt == "xml":
         import xml.etree.ElementTree as ET
 
@@ -536,6 +614,39 @@ def source_bytes(case):
             return e
         return ET.tostring(build(doc), encoding="utf-8")
     raise ValueError(fmt)
+
+
+def plist_xml(d):
+    """XML plist text of a document of alphanumeric strings, numbers, booleans, lists and mappings (any integer size)."""
+    from xml.sax.saxutils import escape
+
+    def w(x, out):
+        if isinstance(x, bool):
+            out.append("<true/>" if x else "<false/>")
+        elif isinstance(x, int):
+            out.append("<integer>%d</integer>" % x)
+        elif isinstance(x, float):
+            out.append("<real>%s</real>" % repr(x))
+        elif isinstance(x, str):
+            out.append("<string>%s</string>" % escape(x))
+        elif isinstance(x, list):
+            out.append("<array>")
+            for c in x:
+                w(c, out)
+            out.append("</array>")
+        elif isinstance(x, dict):
+            out.append("<dict>")
+            for k, v in x.items():
+                out.append("<key>%s</key>" % escape(k))
+                w(v, out)
+            out.append("</dict>")
+        else:
+            raise ValueError(type(x))
+    out = ['<?xml version="1.0" encoding="UTF-8"?>\n<!DOCTYPE plist PUBLIC "-//Apple//DTD PLIST 1.0//EN" '
+           '"http://www.apple.com/DTDs/PropertyList-1.0.dtd">\n<plist version="1.0">\n']
+    w(d, out)
+    out.append("\n</plist>\n")
+    return "".join(out)
 
 
 def xml_obj(o):
@@ -610,11 +721,26 @@ def impl(case):
         return dict(_exc(e), stage="load1-raises")
     obj1 = tree_obj(fmt, t1)
     out = io.StringIO()
+    printer = Printer(out_stream=out, ansi_color=False, quiet=True)
+    start = 0
+    if case.get("pre"):
+        # the same Printer object first prints another document (of another format)
+        pre = case["pre"]
+        pft = graphtage.FILETYPES_BY_TYPENAME[pre["fmt"]]
+        p0 = os.path.join(_TMP, "pre." + pre["fmt"])
+        with open(p0, "wb") as f:
+            f.write(source_bytes(pre))
+        try:
+            pft.get_default_formatter().print(printer, pft.build_tree(p0))
+            printer.newline()
+        except Exception as e:
+            return dict(_exc(e), stage="load1-raises", pre_failed=True)
+        start = len(out.getvalue())
     try:
-        ft.get_default_formatter().print(Printer(out_stream=out, ansi_color=False, quiet=True), t1)
+        ft.get_default_formatter().print(printer, t1)
     except Exception as e:
         return dict(_exc(e), stage="print-raises", obj1=obj1)
-    text = out.getvalue()
+    text = out.getvalue()[start:]
     obs = {"obj1": obj1, "printed": cps(text)}
     if fmt in ("json", "json5"):
         obs["comb"] = _combines(fmt)
@@ -827,6 +953,35 @@ def first_diff(a, b, ctx="root"):
     return (ctx, feature(a) if isinstance(a, (dict, list)) else "?")
 
 
+def _has_long_spaced_key(e):
+    """a mapping key longer than 80 characters that contains a blank (yaml.dump folds it over two lines)"""
+    if not isinstance(e, dict):
+        return False
+    if e.get("k") == "dict":
+        return any((isinstance(kk, list) and len(kk) > 80 and 0x20 in kk) or _has_long_spaced_key(v) for kk, v in e["c"])
+    if e.get("k") == "list":
+        return any(_has_long_spaced_key(c) for c in e["c"])
+    return False
+
+
+def _hash_string_lost(a, b):
+    """the first difference between the documents is a string that starts (after blanks) with '#' on the first side and null on the second"""
+    if isinstance(a, dict) and isinstance(b, dict):
+        if a.get("k") == "str" and b.get("k") == "null":
+            return uncps(a["s"]).strip().startswith("#")
+        if a.get("k") == b.get("k") == "list" and len(a["c"]) == len(b["c"]):
+            for x, y in zip(a["c"], b["c"]):
+                if x != y:
+                    return _hash_string_lost(x, y)
+        if a.get("k") == b.get("k") == "dict" and len(a["c"]) == len(b["c"]):
+            for (ka, va), (kb, vb) in zip(a["c"], b["c"]):
+                if ka != kb:
+                    return False
+                if va != vb:
+                    return _hash_string_lost(va, vb)
+    return False
+
+
 def has_nan(e):
     return "float-nan" in all_features(e)
 
@@ -844,16 +999,22 @@ def monitor(case, obs):
         return []          # no loaded document / reader-only case: outside the property
     hits = []
     o1 = obs.get("obj1")
+    seq = ":after-" + case["pre"]["fmt"] if case.get("pre") else ""
     if st in ("print-raises", "print-unencodable", "reload-rejects"):
         cls = "print-raises" if st != "reload-rejects" else "reload-rejects"
-        hits.append({"prop": "C12", "key": f"{fmt}:{cls}:{obs.get('exc')}:{top_feature(o1)}",
+        feat = top_feature(o1)
+        if fmt == "yaml" and st == "reload-rejects" and _has_long_spaced_key(o1):
+            feat = "long-key-with-spaces"
+        hits.append({"prop": "C12", "key": f"{fmt}{seq}:{cls}:{obs.get('exc')}:{feat}",
                      "what": f"{fmt}: {st}: {obs.get('exc')}: {obs.get('msg', '')[:160]}; printed text {uncps(obs.get('printed', []))[:200]!r}"})
         return hits
     d = first_diff(o1, obs["obj2"])
     if d is not None:
-        key = f"{fmt}:reload-differs:{d[0]}:{d[1]}"
-        if fmt == "yaml" and d[1] in ("empty-list", "empty-dict", "empty-str") and d[0] != "key":
+        key = f"{fmt}{seq}:reload-differs:{d[0]}:{d[1]}"
+        if fmt == "yaml" and d[1] in ("empty-list", "empty-dict", "empty-str") and d[0] != "key" and not seq:
             key = "yaml:reload-differs:empty-value"
+        elif fmt == "yaml" and d[0] != "key" and not seq and _hash_string_lost(o1, obs["obj2"]):
+            key = "yaml:reload-differs:hash-string"
         hits.append({"prop": "C12", "key": key,
                      "what": f"{fmt}: the printed text loads to a different document (first difference: {d[0]}, {d[1]}); printed text "
                              f"{uncps(obs.get('printed', []))[:200]!r}"})
@@ -863,7 +1024,7 @@ def monitor(case, obs):
         sub = "node-eq"
         if fmt == "plist" and obs.get("root_eq"):
             sub = "plist-node-eq-identity"
-        hits.append({"prop": "C12", "key": f"{fmt}:reload-differs:{sub}",
+        hits.append({"prop": "C12", "key": f"{fmt}{seq}:reload-differs:{sub}",
                      "what": f"{fmt}: both loads give the same data (to_obj) but tree1 == tree2 is {obs.get('eq')} / reversed {obs.get('eq_rev')}"})
     return hits
 
@@ -924,6 +1085,14 @@ def _canonical_json_text(case):
 
 
 def to_model(case, obs):
+    if case.get("pre"):
+        # the text may legitimately differ in layout after another format changed the printer's indentation width; the round trip of
+        # the data is what the monitor checks
+        return None
+    return _to_model(case, obs)
+
+
+def _to_model(case, obs):
     if case.get("fmt") not in MODEL_FORMATS or not isinstance(obs, dict) or "printed" not in obs or obs.get("error"):
         return None
     if case.get("mode") == "read":
@@ -964,6 +1133,8 @@ def classify(case, obs):
     if not isinstance(obs, dict) or obs.get("error"):
         return fmt + "|error"
     st = obs.get("stage")
+    if case.get("pre"):
+        return f"{fmt}|after-{case['pre']['fmt']}|{st}"
     if st != "ok":
         return f"{fmt}|{st}"
     if fmt == "xml":
@@ -986,6 +1157,8 @@ def nontrivial(case, obs):
 def shrink(case):
     doc = case["doc"]
     base = {"fmt": case["fmt"], "src": {k: v for k, v in (case.get("src") or {}).items() if k != "text"}}
+    if case.get("pre"):
+        base["pre"] = case["pre"]
     if "text" in (case.get("src") or {}):
         return
 
